@@ -133,6 +133,36 @@ func cmdCrashKv(fs *flag.FlagSet, args []string) {
 		dumps := []string{refDump()}
 		p0 := rec.pos()
 		ctr := 0
+		// every other workload runs next to a client whose puts are too big for the log: they are
+		// refused, change nothing and write nothing, so the reference is the same — but whatever
+		// the journal does when it refuses must not cost an acknowledged put of somebody else its
+		// durability
+		var stopNoise, noiseDone chan bool
+		refused, accepted := 0, 0
+		if w%2 == 1 {
+			stopNoise, noiseDone = make(chan bool), make(chan bool)
+			var big []kvs.KVPair
+			for k := uint64(0); k < 600; k++ {
+				big = append(big, kvs.KVPair{Key: 1200 + k, Val: make([]byte, 4096)})
+			}
+			go func() {
+				defer close(noiseDone)
+				for {
+					select {
+					case <-stopNoise:
+						return
+					default:
+					}
+					ok := true
+					guardedCall(func() { ok = store.MultiPut(big) })
+					if ok {
+						accepted++
+					} else {
+						refused++
+					}
+				}
+			}()
+		}
 		for i := 0; i < *nops; i++ {
 			n := 1 + r.Intn(5)
 			if r.Chance(1, 8) {
@@ -161,6 +191,14 @@ func cmdCrashKv(fs *flag.FlagSet, args []string) {
 			}
 			ops = append(ops, smallOp{start: start, ret: ret, acked: good && ok, text: "multiput " + strings.Join(txt, ",")})
 			dumps = append(dumps, refDump())
+		}
+		if stopNoise != nil {
+			close(stopNoise)
+			<-noiseDone
+			emit("# kv workload %d ran next to %d refused oversized puts", w, refused)
+			if accepted > 0 {
+				emit("# ORACLE C18 oversized-put-accepted a MultiPut of 600 pairs (more than the log holds) returned true %d times", accepted)
+			}
 		}
 		store.Delete()
 		rec.mu.Lock()
